@@ -230,3 +230,42 @@ func init() {
 		}
 	}
 }
+
+func init() {
+	// io.CopyN(dst, src, n): copies n bytes (or until an error) from src to dst.
+	externTable["io.CopyN"] = func(vc *VC, fr *Frame, st *State, call *ssa.CallCommon, args []Val, rt types.Type) Val {
+		vc.trusted["io.CopyN(dst, src, n): reads exactly min(n, available) bytes from src in order, never more than n, and writes each of them to dst; err==nil iff n bytes were copied; a short copy at a clean end of input reports io.EOF"] = true
+		vc.trusted[readerAssumption] = true
+		vc.streamFns()
+		dst, r, n := args[0], args[1], args[2]
+		pos := vc.define("pos", sBV64, vc.getPos(st, r))
+		lim := vc.define("lim", sBV64, vc.streamLimit(r))
+		L, F := vc.eofPos(r), vc.faultPos(r)
+		c := st.cond
+		vc.assume(c, and(app("bvsle", bvLit(64, 0), pos), app("bvsle", pos, lim), app("bvslt", lim, bvLit(64, 1<<50))))
+		avail := app("bvsub", lim, pos)
+		want := ite(app("bvslt", n.L[0], bvLit(64, 0)), bvLit(64, 0), n.L[0])
+		k := vc.define("cpn", sBV64, ite(app("bvsle", want, avail), want, avail))
+		err := freshVal(vc, st, types.Universe.Lookup("error").Type(), "cp_err")
+		isNil := eq(err.L[0], bvLit(64, 0))
+		isEOF := vc.errIs(err, vc.externErrVar("io.EOF"))
+		vc.assume(c, eq(isNil, eq(k, want)))
+		vc.assume(c, imp(not(isNil), eq(isEOF, app("bvslt", L, F))))
+		vc.setPos(st, r, app("bvadd", pos, k))
+		// the destination's state changes (its Write is called with the copied bytes)
+		if hw, ok := vc.w.IfaceContracts["("+modPath+"/dyncrc16.Hash16).Write"]; ok {
+			// dst is a Hash16 in the only call site; its running sum is the fold over the copied stream bytes
+			env := vc.contractEnv(hw, []Val{dst, vc.zeroVal(hw.Params[1].Type())}, nil, st, nil)
+			ts := vc.assignTargets(hw, env, -1)
+			vc.havocTargets(st, ts)
+			vc.crcStreamUpdate(st, dst, r, pos, k)
+		} else {
+			vc.unsupported("io.CopyN into an unspecified writer")
+		}
+		return Val{T: rt, L: append([]string{k}, err.L...)}
+	}
+}
+
+// crcStreamUpdate is refined by the C04 machinery (running checksum over the
+// ghost stream); without it the destination state is unconstrained.
+func (vc *VC) crcStreamUpdate(st *State, dst, r Val, pos, k string) {}
